@@ -466,6 +466,13 @@ def check_alias(cond, i, j, where):
         if G.normalise(obj_to_ast(real_alias.conditions)) != G.normalise(obj_to_ast(real_direct.conditions)):
             fails.append(("alias-not-textual-substitution", f"{join(texts[-1])}"))
         changed = j - i > 1
+        # ill-formed input must not slip in through an alias: an unknown profile inside the body of an alias that a rule uses
+        for k, token in enumerate(body):
+            if token in PROFILES:
+                bad_define = ["DEFINE", "al", "AS"] + body[:k] + ["zz"] + body[k + 1:]
+                bad_texts = [bad_define + rule] if where == "same" else [bad_define, rule]
+                bad_fails, _ = judge_texts(bad_texts)
+                fails.extend((f"alias-body:{clause}", detail) for clause, detail in bad_fails)
     return fails, outcome, changed
 
 
